@@ -6,6 +6,7 @@ use crate::oracle::{self, Mat};
 use proptest::collection::vec;
 use proptest::prelude::*;
 use serde::{Deserialize, Serialize};
+use smartcore::linalg::naive::dense_matrix::DenseMatrix;
 use smartcore::linear::elastic_net::{ElasticNet, ElasticNetParameters};
 use smartcore::linear::lasso::{Lasso, LassoParameters};
 
@@ -101,12 +102,17 @@ fn fit_model(case: &L1Case, lasso: bool, y: &[f64], alpha: f64, l1_ratio: f64) -
         if lasso {
             // builder calls in two orders (a setter that rebuilds from the defaults would lose earlier settings)
             let params = if y.len() % 2 == 0 { LassoParameters::default().with_alpha(alpha).with_tol(case.tol).with_normalize(case.normalize) } else { LassoParameters::default().with_normalize(case.normalize).with_tol(case.tol).with_alpha(alpha) };
-            let m = Lasso::fit(&xm, &yv, params).map_err(|e| e.to_string())?;
-            Ok(Fit { w: to_mat(m.coefficients()).d, b: m.intercept(), pred: m.predict(&fm).map_err(|e| e.to_string())? })
+            // inherent entry points, or (every other case) the generic traits of smartcore::api
+            let via_trait = (y.len() / 2) % 2 == 1;
+            let m: Lasso<f64, DenseMatrix<f64>> = if via_trait { sup_fit(&xm, &yv, params) } else { Lasso::fit(&xm, &yv, params) }.map_err(|e| e.to_string())?;
+            let pred: Vec<f64> = if via_trait { tr_predict(&m, &fm) } else { m.predict(&fm) }.map_err(|e| e.to_string())?;
+            Ok(Fit { w: to_mat(m.coefficients()).d, b: m.intercept(), pred })
         } else {
             let params = if y.len() % 2 == 0 { ElasticNetParameters::default().with_alpha(alpha).with_l1_ratio(l1_ratio).with_tol(case.tol).with_normalize(case.normalize) } else { ElasticNetParameters::default().with_normalize(case.normalize).with_tol(case.tol).with_l1_ratio(l1_ratio).with_alpha(alpha) };
-            let m = ElasticNet::fit(&xm, &yv, params).map_err(|e| e.to_string())?;
-            Ok(Fit { w: to_mat(m.coefficients()).d, b: m.intercept(), pred: m.predict(&fm).map_err(|e| e.to_string())? })
+            let via_trait = (y.len() / 2) % 2 == 1;
+            let m: ElasticNet<f64, DenseMatrix<f64>> = if via_trait { sup_fit(&xm, &yv, params) } else { ElasticNet::fit(&xm, &yv, params) }.map_err(|e| e.to_string())?;
+            let pred: Vec<f64> = if via_trait { tr_predict(&m, &fm) } else { m.predict(&fm) }.map_err(|e| e.to_string())?;
+            Ok(Fit { w: to_mat(m.coefficients()).d, b: m.intercept(), pred })
         }
     })
 }
